@@ -1,12 +1,20 @@
 //! Dispatch for the non-core engines (expert, map, limits).
 
 use crate::plan::*;
-use crate::run::RunOutput;
+use crate::run::{run_with, RunOutput};
 
-pub fn gen_plan(prop: &str, _seed: u64) -> Plan {
-    panic!("engine for {prop} not built yet")
+pub fn gen_plan(prop: &str, seed: u64) -> Plan {
+    match prop {
+        "C14" => crate::expert::gen_plan(seed),
+        "C15" | "C16" | "C17" => crate::mapeng::gen_plan(prop, seed),
+        _ => panic!("engine for {prop} not built yet"),
+    }
 }
 
-pub fn run_plan(plan: &Plan, _keep: bool) -> RunOutput {
-    panic!("engine {} not built yet", plan.engine)
+pub fn run_plan(plan: &Plan, keep: bool) -> RunOutput {
+    match plan.engine.as_str() {
+        "expert" => run_with(plan, keep, crate::expert::run_on_this_thread),
+        "map" => run_with(plan, keep, crate::mapeng::run_on_this_thread),
+        e => panic!("engine {e} not built yet"),
+    }
 }
